@@ -52,7 +52,7 @@ var props = map[string]propSpec{
 		{Pkg: "registration", Fn: "VerifC03Validate", Validate: 16, MustReach: []string{"accepted", "rejected"}, Panics: true, CrossSolver: "z3"},
 		{Pkg: "registration", Fn: "VerifC03EntryPoints", Validate: 16, MustReach: []string{"authorize-accepted", "authorize-rejected", "fetch-done"}, Panics: true},
 		{Pkg: "registration", Fn: "VerifC03NodeSide", Validate: 4, MustReach: []string{"own-request-accepted", "own-request-rejected"}},
-	}, Assumptions: with(), Explanation: "validateFetchRequestCommon, AuthorizeNode and FetchNodeCredentials with every bundle field, the encoding sent (canonical or another encoding of the same message), the signature (any key over the sent / canonical / other bytes, or raw bytes of any length), both skews (any sign) and the clock symbolic; node-side request creation and its exact validity window"},
+	}, Assumptions: with(), Explanation: "validateFetchRequestCommon, AuthorizeNode and FetchNodeCredentials with every bundle field (the previous-key and ID fields included), the encoding sent (canonical or another encoding of the same message), the signature (any key over the sent / canonical / other bytes, or raw bytes of any length), both skews (any sign) and the clock symbolic; node-side request creation and its exact validity window"},
 	"C04": {Harnesses: []harnessSpec{
 		{Pkg: "protocol", Fn: "VerifC04OperatorFlow", Validate: 4, MustReach: []string{"end"}, ShardBits: 2},
 		{Pkg: "protocol", Fn: "VerifC04TokenFlow", Validate: 4, MustReach: []string{"end"}, ShardBits: 2},
@@ -69,7 +69,7 @@ var props = map[string]propSpec{
 		{Pkg: "tls", Fn: "VerifC05NodeIdPath1", Validate: 8, MustReach: []string{"certificates-generated", "rejected"}, Panics: true},
 		{Pkg: "tls", Fn: "VerifC05NodeIdPath2", ShardBits: 2, Validate: 8, MustReach: []string{"certificates-generated", "rejected"}, Panics: true},
 		{Pkg: "tls", Fn: "VerifC05NodeIdPath3", ShardBits: 2, Validate: 8, MustReach: []string{"certificates-generated", "rejected"}, Panics: true, ThoroughOnly: true},
-	}, Assumptions: with(), Explanation: "the whole of GenerateServerCertificates (verification and minting) over both lookup paths, 0..3 records in any order and grouping, nonce and client-state signatures chosen independently"},
+	}, Assumptions: with(), Explanation: "the whole of GenerateServerCertificates (verification and minting) over both lookup paths, 0..3 records in any order and grouping, nonce and client-state signatures chosen independently, arbitrary peer-supplied common name"},
 	"C06": {Harnesses: []harnessSpec{
 		{Pkg: "registration", Fn: "VerifC06SingleUse", Validate: 8, MustReach: []string{"first-use-enrolled", "first-use-refused"}},
 		{Pkg: "registration", Fn: "VerifC06ExistingKey", Validate: 4, MustReach: []string{"enrolled", "refused"}},
@@ -86,7 +86,7 @@ var props = map[string]propSpec{
 	"C08": {Harnesses: []harnessSpec{
 		{Pkg: "rotation", Fn: "VerifC08Rotate", Validate: 16, MustReach: []string{"nothing", "promote", "remint", "startover"}, CrossSolver: "z3"},
 		{Pkg: "rotation", Fn: "VerifC08ReinitRemoveFails", Validate: 4, MustReach: []string{"end"}},
-	}, Assumptions: with("clock assumption: one rotation call takes < 100 ms and ends before the promoted root expires"), Explanation: "one RotateRootCertificates call from absent or stored roots whose four validity instants are free integers (every ordering relative to now at once), any positive lifetime and skews, with or without reinitialisation: exact decision table, persisted = returned incl. labels, exact minted windows with the half-life shift, overlap, current valid"},
+	}, Assumptions: with("clock assumption: one rotation call takes < 100 ms and ends before the promoted root expires"), Explanation: "one RotateRootCertificates call from absent or stored roots whose four validity instants are free integers (every ordering relative to now at once), any positive lifetime and skews, with or without reinitialisation: exact decision table, persisted = returned incl. labels, exact minted windows with the half-life shift, overlap, current valid; reinitialisation over a storage whose Remove fails never keeps an old root"},
 	"C09": {Harnesses: []harnessSpec{
 		{Pkg: "rotation", Fn: "VerifC09Base", Validate: 1, MustReach: []string{"end"}, CrossSolver: "z3"},
 		{Pkg: "rotation", Fn: "VerifC09Step", Validate: 4, MustReach: []string{"returned", "promoted", "unchanged"}, CrossSolver: "z3"},
@@ -103,7 +103,7 @@ var props = map[string]propSpec{
 		{Pkg: ".", Fn: "VerifC11Mutated", Validate: 6, MustReach: []string{"opened", "refused"}, Panics: true},
 		{Pkg: "types", Fn: "VerifC11KeyAgreement", Validate: 8, MustReach: []string{"opened", "refused"}, Panics: true},
 	}, Assumptions: with("AEAD assumption: a ciphertext value different from the sealed one never opens (bit flips, truncation and extension are 'a different value'); AES-GCM itself is not encoded", "the aead wrapper of go-kms-wrapping (SetConfig, options, Encrypt, Decrypt incl. its unchecked [:12] split) is executed from its real SSA"),
-		Explanation: "Encrypt/DecryptMessage with the aead dependency from SSA: arbitrary envelopes, binding to key and key ID incl. previous keys, modified ciphertexts, node-side/server-side key agreement in both directions"},
+		Explanation: "Encrypt/DecryptMessage with the aead dependency from SSA: arbitrary envelopes, binding to key and key ID (any ID, the empty one included) incl. previous keys, modified ciphertexts, node-side/server-side key agreement in both directions"},
 	"C12": {Harnesses: []harnessSpec{
 		{Pkg: "types", Fn: "VerifC12NodeInfo", Validate: 8, MustReach: []string{"loaded", "load-refused"}},
 		{Pkg: "types", Fn: "VerifC12NodeCreds", Validate: 8, MustReach: []string{"loaded", "load-refused"}, ShardBits: 2},
@@ -137,13 +137,13 @@ var props = map[string]propSpec{
 		{Pkg: "protocol", Fn: "VerifC15WriteSetStubbed", Loop: 24, Validate: 8, MustReach: []string{"end"}},
 		{Pkg: "protocol", Fn: "VerifC15WriteSet", Loop: 24, Validate: 8, MustReach: []string{"end"}, ShardBits: 4},
 		{Pkg: "protocol", Fn: "VerifC15AfterRejected", Validate: 4, MustReach: []string{"end"}},
-	}, Assumptions: with("REDUCED CLAIM: write-set isolation (a sufficient condition for handshakes not influencing each other through memory); interleavings themselves and data races are not decided by this technique", "writes made by Storage implementations are the environment's and exempt", "a reallocating append may return spare capacity (vf.AppendSpare): the Go runtime rounds capacities up"), Explanation: "one complete TLS callback with the real fetch and certificate-generation functions (and a stubbed variant for larger slices) writes nothing into memory that existed before it started, for every length and spare capacity of the application's option slice and of the listener's copy, for token, node-led, authentication and base handshakes"},
+	}, Assumptions: with("REDUCED CLAIM: write-set isolation (a sufficient condition for handshakes not influencing each other through memory); interleavings themselves and data races are not decided by this technique", "writes made by Storage implementations are the environment's and exempt", "a reallocating append may return spare capacity (vf.AppendSpare): the Go runtime rounds capacities up"), Explanation: "one complete TLS callback with the real fetch and certificate-generation functions (and a stubbed variant for larger slices) writes nothing into memory that existed before it started, for every length and spare capacity of the application's option slice and of the listener's copy, for token, node-led, authentication and base handshakes, nor into a structured value held by one of those options; a plain client accepted after a rejected authenticated hello is reported with its own protocol list and no client state"},
 	"C16": {Harnesses: []harnessSpec{
 		{Pkg: "protocol", Fn: "VerifC16Protos", Validate: 8, MustReach: []string{"end"}},
 		{Pkg: "protocol", Fn: "VerifC16ConnHonest", Validate: 8, MustReach: []string{"end"}, ShardBits: 2},
 		{Pkg: "protocol", Fn: "VerifC16ConnForged", Validate: 8, MustReach: []string{"accepted", "rejected"}},
 	}, Assumptions: with("TLS handshake contract model (DESIGN 3.5)", "client state is a one-field struct with an arbitrary string value (structpb reflection helpers are not encoded)"),
-		Explanation: "trimmed protocol list on 3 arbitrary ALPN strings; end to end through the node's own ClientConfigs and the listener's Accept: reported list = offered list minus the preference entry (any position), returned as a copy; client state equal to what the node supplied and delivered only for a genuine signature"},
+		Explanation: "trimmed protocol list on 3 arbitrary ALPN strings; end to end through the node's own ClientConfigs and the listener's Accept: reported list = offered list minus the preference entry (any position), returned as a copy; client state equal to what the node supplied and delivered only for a genuine signature by the key of the record that authenticated the request (also when the node is looked up by node ID and has a newer record)"},
 	"C17": {Harnesses: []harnessSpec{
 		{Pkg: "net", Fn: "VerifC17Routing", Validate: 16, MustReach: []string{"delivered-to-special", "delivered-to-auth", "delivered-to-unauth", "closed-no-listener", "end"}, Panics: true, ShardBits: 4},
 		{Pkg: "net", Fn: "VerifC17LateRegistration", Validate: 4, MustReach: []string{"delivered-to-the-late-listener", "second-connection-has-no-listener", "end"}, Panics: true},
@@ -168,5 +168,5 @@ var props = map[string]propSpec{
 		{Pkg: "tls", Fn: "VerifC20Chunks13", Loop: 16, Validate: 2, MustReach: []string{"end"}, Panics: true},
 		{Pkg: "tls", Fn: "VerifC20Chunks20", Loop: 24, Validate: 2, MustReach: []string{"end"}, Panics: true, ThoroughOnly: true},
 	}, Assumptions: with("strings are byte sequences (code points 0..255); UTF-8 decoding ([]rune conversions, range over string) is not encoded", "the ClientHello limit is taken as 268 entries (65535 / minimal entry size); the per-chunk lemma covers chunk indices 0..267"),
-		Explanation: "whole-function round trip for 1..4 chunks with symbolic content and length, the same with two unrelated names interleaved at arbitrary positions for both request prefixes, arbitrary malformed entries, and the per-chunk inductive lemma by loop cut up to the ClientHello limit"},
+		Explanation: "whole-function round trip for 1..4 and 12..13 chunks with symbolic content and length, the same with two unrelated names interleaved at arbitrary positions for both request prefixes, arbitrary malformed entries, and the per-chunk inductive lemma by loop cut up to the ClientHello limit"},
 }
